@@ -344,7 +344,7 @@ class Runner {
   void emitViol(const std::string& phase, uint64_t idx, const std::string& key,
                 const std::string& desc, const std::string& detail) {
     uint64_t n = sh_->viol.fetch_add(1);
-    if (n >= 400) return;  // flood guard; the count stays exact
+    if (n >= 4000) return;  // flood guard; the count stays exact
     std::string det = detail.size() > 2500 ? detail.substr(0, 2500) + "..." : detail;
     std::string dsc = desc.size() > 600 ? desc.substr(0, 600) + "..." : desc;
     std::string k = key.size() > 600 ? key.substr(0, 560) + "#" + std::to_string(hash_str(key)) : key;
